@@ -40,6 +40,8 @@ def parseOp (tok : String) : Option Q :=
   | 'v' :: ':' :: n => some (.op (.findVar (String.ofList n)))
   | 'x' :: ':' :: n => some (.op (.expose (String.ofList n)))
   | 'V' :: ':' :: n => some (.op (.findVar (String.ofList n)))
+  -- `a:<what the caller does to the returned set>`: AllFunctions(); the mutation is the caller's business, not the model's
+  | 'a' :: ':' :: _ => some (.op .allFuncs)
   | 'F' :: ':' :: rest =>
     match (String.ofList rest).splitOn "|" with
     | [pkg, name] => if name = "" then some (.fixed "panic:empty-name") else some (.op (.findFunc (pkg ++ "." ++ name)))
@@ -72,6 +74,7 @@ def errName : Err → String
 def showRes : Res → String
   | .ok a => s!"ok:{hex64 a}"
   | .err e => s!"err:{errName e}"
+  | .set k => s!"set:{k}"
 
 def parseHist (toks : List String) : Option (Env String × List Q) := do
   match toks with
